@@ -59,6 +59,8 @@ class ProdBase:
         self.signals = []
         self.registered = True
         self.turns = 0
+        self.reg_step = ctx.sim.steps
+        self.unreg_step = None
 
     def _write(self, n):
         for i in range(n):
@@ -82,6 +84,8 @@ class PushProd(ProdBase):
     def resumeProducing(self):
         self.signals.append("resume")
         self.turns += 1
+        self.ctx.turn_log.setdefault(self.side.name, []).append(
+            (self.ctx.sim.steps, self))
         self.ctx.sim.ev("prod", self.side.name, id_of(self), "resume")
         if self.ctx.writable(self.side) is False:
             self.ctx.V("C15.resumed_while_unwritable", "no producer is resumed "
@@ -154,6 +158,7 @@ def run_one(seed, tape, opts):
     ctx = Ctx()
     ctx.sim, ctx.tape, ctx.w = sim, tape, w
     ctx.recsize = tape.pick((1, 40, 2000), "recsize")
+    ctx.turn_log = {}
     viol = []
 
     def V(key, clause, detail):
@@ -184,6 +189,7 @@ def run_one(seed, tape, opts):
 
     def unregister(prod):
         prod.registered = False
+        prod.unreg_step = sim.steps
         if prod.proto.lost:
             return      # the subchannel is gone; Outbound already dropped it
         try:
@@ -229,8 +235,8 @@ def run_one(seed, tape, opts):
         side = tape.pick(w.sides, "opside")
         mine = subs[side.name]
         k = tape.choose(12, "opk") if mode == "mixed" else \
-            (tape.choose(4, "opk") if mode == "rotation" else
-             4 + tape.choose(8, "opk"))
+            (tape.pick((0, 1, 0, 1, 3, 20, 7), "opk") if mode == "rotation"
+             else 4 + tape.choose(8, "opk"))
         sim.ev("op", side.name, k)
         free = [p for p in mine if not p.lost and not p.closed_local and
                 not any(x.registered and x.proto is p
@@ -252,6 +258,11 @@ def run_one(seed, tape, opts):
                 p.transport.registerProducer(prod, False)
             except Exception as e:
                 V("C15.register_raised", "registerProducer works", repr(e))
+        elif k == 20:
+            # (rotation) a producer somewhere in the waiting line goes away
+            regd = [x for x in producers[side.name] if x.registered]
+            if regd:
+                unregister(tape.pick(regd, "unreg"))
         elif k == 3:
             regd = [x for x in producers[side.name] if x.registered]
             if regd and mode != "rotation":
@@ -281,6 +292,8 @@ def run_one(seed, tape, opts):
             if not p.lost and not p.closed_local:
                 for x in producers[side.name]:
                     if x.proto is p:
+                        if x.registered:
+                            x.unreg_step = sim.steps
                         x.registered = False
                 p.transport.loseConnection()
                 p.closed_local = True
@@ -306,9 +319,18 @@ def run_one(seed, tape, opts):
                 if not p.lost and not p.closed_local:
                     p.transport.write(b"W" * ctx.recsize)
 
+    next_op = [0]
+
+    def spaced_op():
+        op()
+        if mode == "rotation":
+            # spread the operations over the rotation instead of front-
+            # loading them: producers come and go while others wait
+            next_op[0] = sim.steps + tape.choose(120, "opgap")
+
     def extra():
-        if done_ops[0] < nops and not viol:
-            return [("op", op)]
+        if done_ops[0] < nops and not viol and sim.steps >= next_op[0]:
+            return [("op", spaced_op)]
         return []
     w.extra_app_events = extra
     sim.fault_events = faults.events
@@ -406,6 +428,37 @@ def run_one(seed, tape, opts):
               "again until the simulation went idle / 600 s passed; signals "
               "%r" %
               (x.side.name, id_of(x), x.turns, x.behaviour, x.signals[-4:]))
+    if not viol and mode == "rotation":
+        # round-robin: between two consecutive turns of one producer every
+        # other producer that stayed registered (and paused) all along gets
+        # a turn of its own
+        for sname, log in ctx.turn_log.items():
+            last = {}
+            for idx, (st, x) in enumerate(log):
+                if x in last:
+                    i0, st0 = last[x]
+                    between = set(y for _, y in log[i0 + 1:idx])
+                    for y in producers[sname]:
+                        if y is x or y.kind != "push" or y in between:
+                            continue
+                        if y.reg_step < st0 and (y.unreg_step is None or
+                                                 y.unreg_step > st) and \
+                                not (y.proto.lost and y.unreg_step is None):
+                            V("C15.rotation_unfair", "when the connection "
+                              "drains all paused producers are eventually "
+                              "resumed, each getting a turn",
+                              "%s: producer %d had turns at events %d and %d "
+                              "while producer %d, registered since event %d "
+                              "and paused all along, had none in between "
+                              "(order of turns %r)" %
+                              (sname, id_of(x), st0, st, id_of(y), y.reg_step,
+                               [id_of(z) for _, z in log][:16]))
+                            break
+                    if viol:
+                        break
+                last[x] = (idx, st)
+            if viol:
+                break
     if not viol and r == "until" and mode == "rotation":
         for s in w.sides:
             regd = [x for x in producers[s.name] if x.registered and
